@@ -1,14 +1,135 @@
-/- Line-protocol driver of the Layout cluster (see lakefile.toml). -/
+/- Line-protocol driver of the Layout cluster (C04 descriptor, C05 layout, C06).
+
+Requests (one s-expression per line)                      reply
+  (ping)                                                  pong
+  (types)                                                 ((integralDataTypes…) (formIrTypes…) ((name value)…))
+  (width <integral type>)                                 1 | 2
+  (coeffoff <width> (<dim>…))                             ((<offset>…) <total>)
+  (tensorw (<dim>…))                                      <tensor_sizes(ir).w>
+  (constoff ((<extent>…)…))                               ((<offset>…) <total>)
+  (flatcomp (<extent>…) (<index>…))                       (<in range: true|false> <flat index>)
+  (constaccess ((<extent>…)…) <k> (<index>…))             <index into c>
+  (origpos (<orig id>…) (<reduced id>…))                  ((<position>…) (<surviving index>…))
+  (argsortok (<id>…) (<perm>…))                           true | false          — `IsArgsort`
+  (intdata (<group>…))      group = (<entry>…), entry = (<id> <name> (<domain tag>…))
+        → ((<name>…) (<id>…) (<offset>…) ((<domain tag>…)…) (<kernel count per group>…) <delimits: true|false>)
+          (stable argsort; comparable only up to reordering inside runs of equal ids)
+  (intdatap ((<perm>…)…) (<group>…))   the same with the given argsort results (NumPy's actual output), plus a
+        trailing <all perms satisfy IsArgsort: true|false>
+  (formir (<itg>…))         itg = (<integral type> (<id>|otherwise …) <name> (<domain tag>…))
+        → (ok (<group>…)) | (error <message>)
+  (exprdesc <tdim>|none <num points> <pdim> (<value shape>…) (<arg dim>…) (<orig coeff id>…) (<coeff id>…)
+            ((<const extent>…)…) <num constants after preprocessing>)
+        → (ok (<num_points> <entity_dimension> (<value_shape>…) <num_components> <rank> <num_coefficients>
+               <num_constants> (<original_coefficient_positions>…) <entity_type> <size of A>)) | (error <message>)
+-/
 import FfcxModel.Driver.Loop
+import FfcxModel.IR.Layout
+import FfcxModel.Generated.IntegralTypes
 
-open Ffcx
+open Ffcx Ffcx.Layout
 
+namespace LayoutDriver
+
+def nats (s : Sexp) : Except String (List Nat) := do (← s.asList).mapM Sexp.asNat
+def ints (s : Sexp) : Except String (List Int) := do (← s.asList).mapM Sexp.asInt
+def natss (s : Sexp) : Except String (List (List Nat)) := do (← s.asList).mapM nats
+
+def ofNats (xs : List Nat) : Sexp := .list (xs.map Sexp.ofNat)
+def ofInts (xs : List Int) : Sexp := .list (xs.map Sexp.ofInt)
+
+def entry (s : Sexp) : Except String Entry := do
+  match ← s.asList with
+  | [i, n, d] => pure ⟨← i.asInt, ← n.asAtom, ← nats d⟩
+  | _ => .error "entry = (id name (domains))"
+
+def group (s : Sexp) : Except String Group := do (← s.asList).mapM entry
+
+def ofEntry (e : Entry) : Sexp := .list [.ofInt e.id, .atom e.name, ofNats e.domains]
+
+def subId (s : Sexp) : Except String SubId := do
+  let a ← s.asAtom
+  if a == "otherwise" then pure .otherwise else pure (.num (← s.asInt))
+
+def itg (s : Sexp) : Except String ItgData := do
+  match ← s.asList with
+  | [t, sids, n, d] =>
+    let tn ← t.asAtom
+    pure ⟨Generated.formIrTypes.idxOf tn, ← (← sids.asList).mapM subId, ← n.asAtom, ← nats d⟩
+  | _ => .error "itg = (type (ids) name (domains))"
+
+/-- executable `Delimits` -/
+def delimitsB (offs counts : List Nat) : Bool :=
+  offs.length == counts.length + 1 &&
+    (List.range (counts.length + 1)).all (fun t => offs[t]? == some (counts.take t).sum)
+
+def optNat (s : Sexp) : Except String (Option Nat) := do
+  match s with
+  | .atom "none" => pure none
+  | _ => pure (some (← s.asNat))
+
+end LayoutDriver
+
+open LayoutDriver in
 def dispatch (req : Sexp) : Except String Sexp :=
   match req with
-  | .list (.atom cmd :: _args) =>
-    match cmd with
-    | "ping" => .ok (.atom "pong")
-    | _ => .error s!"unknown command {cmd}"
+  | .list (.atom cmd :: args) =>
+    match cmd, args with
+    | "ping", _ => .ok (.atom "pong")
+    | "types", _ => .ok (.list [
+        .list (Generated.integralDataTypes.map .atom), .list (Generated.formIrTypes.map .atom),
+        .list (Generated.ufcxIntegralTypeEnum.map (fun p => .list [.atom p.1, .ofNat p.2]))])
+    | "width", [t] => do pure (.ofNat (widthOf (← t.asAtom)))
+    | "coeffoff", [w, ds] => do
+      let w ← w.asNat
+      let ds ← nats ds
+      pure (.list [ofNats (coeffOffsets w ds), .ofNat (coeffTotal w ds)])
+    | "tensorw", [ds] => do pure (.ofNat (tensorSizeW (← nats ds)))
+    | "constoff", [ss] => do
+      let ss ← natss ss
+      pure (.list [ofNats (constOffsets ss), .ofNat (constTotal ss)])
+    | "flatcomp", [sh, ix] => do
+      let sh ← nats sh
+      let ix ← nats ix
+      pure (.list [.ofBool (decide (sh.length = ix.length) && (sh.zip ix).all (fun p => p.2 < p.1)),
+                   .ofNat (flatComponent sh ix)])
+    | "constaccess", [ss, k, ix] => do
+      pure (.ofNat (constAccess (← natss ss) (← k.asNat) (← nats ix)))
+    | "origpos", [o, r] => do
+      let o ← ints o
+      let r ← ints r
+      pure (.list [ofNats (origPositions o r), ofNats (survivingIdx (fun a => decide (a ∈ r)) o)])
+    | "argsortok", [ids, p] => do pure (.ofBool (isArgsortB (← ints ids) (← nats p)))
+    | "intdata", [gs] => do
+      let gs ← (← gs.asList).mapM group
+      let d := intDataStable gs
+      let counts := gs.map kernelCount
+      pure (.list [.list (d.names.map .atom), ofInts d.ids, ofNats d.offsets,
+                   .list (d.domains.map ofNats), ofNats counts, .ofBool (delimitsB d.offsets counts)])
+    | "intdatap", [ps, gs] => do
+      let gs ← (← gs.asList).mapM group
+      let ps ← (← ps.asList).mapM nats
+      let d := intData ps gs
+      let counts := gs.map kernelCount
+      let okp := ps.length == gs.length &&
+        (ps.zip gs).all (fun p => isArgsortB (p.2.map (·.id)) p.1)
+      pure (.list [.list (d.names.map .atom), ofInts d.ids, ofNats d.offsets,
+                   .list (d.domains.map ofNats), ofNats counts, .ofBool (delimitsB d.offsets counts), .ofBool okp])
+    | "formir", [is] => do
+      let is ← (← is.asList).mapM itg
+      match formIR Generated.formIrTypes.length is with
+      | .ok gs => pure (.list [.atom "ok", .list (gs.map (fun g => .list (g.map ofEntry)))])
+      | .error m => pure (.list [.atom "error", .atom m])
+    | "exprdesc", [td, np, pd, sh, ad, oc, c, cs, nc] => do
+      let e : ExprIn := { tdim := ← optNat td, numPoints := ← np.asNat, pdim := ← pd.asNat, shape := ← nats sh,
+                          argDims := ← nats ad, origCoeffs := ← nats oc, coeffs := ← nats c,
+                          origConstShapes := ← natss cs, numConstsReduced := ← nc.asNat }
+      match exprDesc e with
+      | .ok d => pure (.list [.atom "ok", .list [.ofNat d.numPoints, .ofNat d.entityDimension, ofNats d.valueShape,
+                   .ofNat d.numComponents, .ofNat d.rank, .ofNat d.numCoefficients, .ofNat d.numConstants,
+                   ofNats d.origPositions, .atom d.entityType, .ofNat d.sizeA]])
+      | .error m => pure (.list [.atom "error", .atom m])
+    | _, _ => .error s!"unknown command or bad arity: {cmd}"
   | _ => .error "request must be a list"
 
 def main : IO Unit := Driver.run dispatch
